@@ -23,10 +23,23 @@ PROPS = ['C%02d' % i for i in range(1, 21)]
 PY = '/venv/bin/python'
 
 
-def demos_for(props):
+_TIMES = None
+
+
+def demos_for(props, workdir=None):
+    """Demonstration programs used as property oracles: per property the (at most) five fastest ones that take less
+    than 8 s on the clean tree (<dir>/demotimes.json, written by a timing pass), all of them when no timing exists."""
+    global _TIMES
+    if _TIMES is None:
+        f = os.path.join(workdir or '', 'demotimes.json')
+        _TIMES = json.load(open(f)) if workdir and os.path.exists(f) else {}
     out = []
     for p in props:
-        for d in sorted(glob.glob(os.path.join(VERIF, 'seeded', p + '-*'))):
+        ds = sorted(glob.glob(os.path.join(VERIF, 'seeded', p + '-*')))
+        if _TIMES:
+            ds = [d for d in ds if _TIMES.get(os.path.basename(d), [0, 0])[0] < 8.0]
+            ds = sorted(ds, key=lambda d: _TIMES.get(os.path.basename(d), [0, 0])[0])[:5]
+        for d in sorted(ds):
             out.append((os.path.basename(d), os.path.join(d, 'demo.py')))
     return out
 
@@ -60,9 +73,9 @@ def run_one(args):
     if res['tests'] == 'pass':
         props = [p for p in m['props'] if p != 'C19' or m['file'] == 'emd/support.py'] or m['props']
         failed, passed = [], []
-        for name, demo in demos_for(props):
+        for name, demo in demos_for(props, os.path.dirname(workroot)):
             try:
-                r = subprocess.run([PY, demo], cwd=w, env=env, capture_output=True, text=True, timeout=400)
+                r = subprocess.run([PY, demo], cwd=w, env=env, capture_output=True, text=True, timeout=120)
                 (passed if r.returncode == 0 else failed).append(name)
             except subprocess.TimeoutExpired:
                 failed.append(name + '(timeout)')
